@@ -31,6 +31,10 @@ func (pkg *LanguagePackage) ReadFrom(ch BytesChannel) error {
 		return ErrNotEnoughBytes
 	}
 
+	if totalLength < 1 {
+		return fmt.Errorf("tds: invalid length %d for TDS_LANGUAGE, must at least cover the status byte", totalLength)
+	}
+
 	status, err := ch.Byte()
 	if err != nil {
 		return ErrNotEnoughBytes
